@@ -173,7 +173,7 @@ pub fn run_c01(tier: &str, seed: u64, replay: Option<&str>) -> (Meta, Report) {
     let meta = Meta {
         property: "C01",
         level: "exploration",
-        rule: "cases = every single lost PDU of the first pass x {checksum-neutral, zeros, zero-runs, random} content x modes x NAK procedures (family loss1, complete) + seeded random scenarios (family rand: knobs, size, content class, 0-6 faults incl. CRC-protected corruption, stale destination, paced/burst, latency). Oracle evaluated at every success indication. distinct_nontrivial = distinct (config, size, event-order) signatures among runs in which a fault fired AND a success indication was checked.".into(),
+        rule: "cases = every single lost PDU of the first pass x {checksum-neutral, zeros, zero-runs, random} content x modes x NAK procedures (family loss1, complete) + seeded random scenarios (family rand: knobs, size, content class, 0-6 faults incl. CRC-protected corruption, stale destination, paced/burst, latency). The same oracle also runs over the executions of seven families of other properties' workloads (C03 late / primseq, C02 adaptive, C04 rand, C10 rand, C18 rand, C19 rand). Oracle evaluated at every success indication. distinct_nontrivial = distinct (config, size, event-order) signatures among runs in which a fault fired AND a success indication was checked.".into(),
         exhaustive: false,
         assumptions: vec![
             "source file is not modified after Put".into(),
@@ -183,8 +183,7 @@ pub fn run_c01(tier: &str, seed: u64, replay: Option<&str>) -> (Meta, Report) {
         extra: vec![],
     };
     if let Some(r) = replay {
-        let p: Vec<&str> = r.split(':').collect();
-        let case = c01_case(p[1], p[2].parse().unwrap(), p[3].parse().unwrap()).expect("case");
+        let case = any_case(r).expect("case");
         return (meta, run_single(case, judge_c01));
     }
     let n1 = c01_loss1_space().len();
@@ -193,6 +192,17 @@ pub fn run_c01(tier: &str, seed: u64, replay: Option<&str>) -> (Meta, Report) {
     rep.merge(run_cases(nr, "c01-rand", move |i| c01_case("rand", i, seed), judge_c01));
     rep.add("cases:loss1", n1 as u64);
     rep.add("cases:rand", nr as u64);
+    // the same oracle over the executions of other properties' workloads (cancels, suspensions, primitive
+    // sequences, late copies in every end state, the finality window, unacknowledged-mode losses)
+    let nx = if tier == "thorough" { 60_000 } else { 700 };
+    rep.merge(run_cases(nx, "c01-x-c03late", move |i| c03_case("late", i, seed), judge_c01));
+    rep.merge(run_cases(nx, "c01-x-c03primseq", move |i| c03_case("primseq", i, seed), judge_c01));
+    rep.merge(run_cases(nx, "c01-x-c02adaptive", move |i| c02_case("adaptive", i, seed), judge_c01));
+    rep.merge(run_cases(nx, "c01-x-c04rand", move |i| crate::p_final::c04_case("rand", i, seed), judge_c01));
+    rep.merge(run_cases(nx, "c01-x-c10rand", move |i| crate::p_final::c10_case("rand", i, seed), judge_c01));
+    rep.merge(run_cases(nx, "c01-x-c18rand", move |i| crate::p_proto::c18_case("rand", i, seed), judge_c01));
+    rep.merge(run_cases(nx, "c01-x-c19rand", move |i| crate::p_proto::c19_case("rand", i, seed), judge_c01));
+    rep.add("cases:cross(c03-late,c03-primseq,c02-adaptive,c04-rand,c10-rand,c18-rand,c19-rand)", 7 * nx as u64);
     (meta, rep)
 }
 
@@ -937,4 +947,25 @@ pub fn run_c03(tier: &str, seed: u64, replay: Option<&str>) -> (Meta, Report) {
     meta.exhaustive = false;
     meta.extra.push(("x_blackout_space".into(), J::U(nb as u64)));
     (meta, rep)
+}
+
+/// Rebuilds a case of any simulator family from its id (`<PROP>:<family>:<index>:<seed>`).
+pub fn any_case(id: &str) -> Option<Case> {
+    let p: Vec<&str> = id.split(':').collect();
+    if p.len() < 4 {
+        return None;
+    }
+    let (fam, idx, seed) = (p[1], p[2].parse().ok()?, p[3].parse().ok()?);
+    match p[0] {
+        "C01" => c01_case(fam, idx, seed),
+        "C02" => c02_case(fam, idx, seed),
+        "C03" => c03_case(fam, idx, seed),
+        "C04" => crate::p_final::c04_case(fam, idx, seed),
+        "C10" => crate::p_final::c10_case(fam, idx, seed),
+        "C13b" => crate::p_final::c13b_case(fam, idx, seed),
+        "C18" => crate::p_proto::c18_case(fam, idx, seed),
+        "C19" => crate::p_proto::c19_case(fam, idx, seed),
+        "C20" => crate::p_proto::c20_case(fam, idx, seed),
+        _ => None,
+    }
 }
